@@ -7,6 +7,7 @@ from __future__ import annotations
 import contextlib
 import io
 import os
+import warnings
 from fractions import Fraction as Fr
 
 from harness import core
@@ -74,18 +75,40 @@ class SlowFile:
     def __init__(self, sim, log):
         self.sim, self.log = sim, log
         self.next = None     # (latency, nbytes)
+        self.pos = 0         # an endless forward-only stream: the position is the number of bytes moved so far
 
     def read(self, size=-1):
         e, n = self.next
         self.sim.advance(e)
         self.log.append((self.sim.cur, self.sim.clock[self.sim.cur], n))
+        self.pos += n
         return bytes(n)
 
     def write(self, data):
         e, n = self.next
         self.sim.advance(e)
         self.log.append((self.sim.cur, self.sim.clock[self.sim.cur], n))
+        self.pos += n
         return n
+
+    def tell(self):
+        return self.pos
+
+    def seek(self, offset, whence=0):
+        self.pos = offset if whence == 0 else self.pos + offset
+        return self.pos
+
+    def truncate(self, size=None):
+        return self.pos if size is None else size
+
+    def seekable(self):
+        return True
+
+    def readable(self):
+        return True
+
+    def writable(self):
+        return True
 
 
 @contextlib.contextmanager
@@ -103,12 +126,119 @@ def fr(s):
     return Fr(s)
 
 
+class PositionedFile(io.BytesIO):
+    """a real seekable stream under the wrapper: every read/write takes the scripted latency and is logged with the
+    instant it returns and the number of bytes that really moved - wherever in the stream they lie"""
+
+    def __init__(self, sim, log, content):
+        super().__init__(content)
+        self.sim, self.log, self.lat = sim, log, Fr(0)
+
+    def read(self, size=-1):
+        data = super().read(size)
+        self.sim.advance(self.lat)
+        self.log.append((self.sim.cur, self.sim.clock[self.sim.cur], len(data)))
+        return data
+
+    def write(self, data):
+        n = super().write(data)
+        self.sim.advance(self.lat)
+        self.log.append((self.sim.cur, self.sim.clock[self.sim.cur], n))
+        return n
+
+
+def run_positioned(sc):
+    """One stream with a position: sc['script'] is a list of ['read', n, lat] / ['write', n, lat] / ['seek', pos, whence] /
+    ['truncate', size] applied through the wrapper to a BytesIO of sc['content_len'] bytes (passes to the end, rewinds,
+    seeks to the middle and re-reads, rewrites after truncation).  Every rate-limited call becomes one call of the model
+    (gap 0, size = bytes that moved, latency as scripted): the bound and the model speak about the bytes passing the
+    wrapper per call, wherever they lie in the stream."""
+    sim = Sim(1)
+    log, out, derived = [], [], []
+    with patched_time(sim) as U:
+        lim = U.RateLimitedIO(sc['L'])
+        lim._read_lock = SimLock(sim, 'r')
+        lim._write_lock = SimLock(sim, 'w')
+        f = PositionedFile(sim, log, bytes(sc['content_len']))
+        w = lim.wrap(f)
+        if sc.get('stack'):
+            cls = U.TQDMIOReader if sc['dir'] == 'r' else U.TQDMIOWriter
+            w = cls(w, desc='x', total=None, position=0, disable=True)
+        for op in sc['script']:
+            if op[0] in ('read', 'write'):
+                begin = sim.clock[0]
+                sim.sleeps = []
+                sim.lock_taken_at = None
+                f.lat = fr(op[2])
+                before = len(log)
+                if op[0] == 'read':
+                    got = len(w.read(op[1]))
+                    debt = lim._read_sleep_amortised
+                else:
+                    got = w.write(bytes(op[1]))
+                    debt = lim._write_sleep_amortised
+                moved = sum(b for _, _, b in log[before:])
+                if got != moved or len(log) != before + 1:
+                    sc['_short'] = {'call': len(out), 'thread': 0, 'underlying': moved, 'through_wrapper': got}
+                    break
+                out.append({'thread': 0, 'begin': begin, 'lat': f.lat, 'size': Fr(moved), 'over': Fr(0), 'gap': Fr(0),
+                            'lock': sim.lock_taken_at, 'time': log[-1][1], 'sleep': sum(sim.sleeps, Fr(0)), 'debt': Fr(debt)})
+                derived.append(['0', str(moved), fs(f.lat), '0'])
+            elif op[0] == 'seek':
+                w.seek(op[1], op[2])
+            else:
+                w.truncate(op[1])
+        consts = (Fr(lim.PAUSE_LIMIT), Fr(lim.PAUSE_THRESHOLD_SECONDS))
+    sc['calls'] = [derived]
+    sc['order'] = [0] * len(derived)
+    sc['_inexact'] = sim.inexact
+    return out, consts
+
+
+def gen_positioned(rng):
+    """passes over one positioned stream: to the end, rewind, again; seek to the middle and re-read; retry after a full read;
+    rewrite after truncate - the sizes are the transfer chunk (<= L/4), latencies zero or small"""
+    L = 2 ** rng.randint(8, 16)
+    k = rng.random()
+    dmax = max(L // (rng.choice([1, 2, 5]) * rng.choice(site_divisors())), 1) if k < 0.5 else L // 4
+    d = rng.choice([dmax, dmax, max(dmax // 2, 1), rng.randint(max(dmax // 2, 1), dmax)])
+    # the stream holds one to three seconds' worth of payload (at most 200 calls per pass), so that a second pass matters
+    # against the burst allowance
+    n = min(rng.randint(L, 3 * L), rng.randint(100, 200) * d)
+    direction = rng.choice('rw')
+    script = []
+    lat = lambda: '0' if rng.random() < 0.8 else fs(Fr(rng.randint(0, 16), 1024))
+
+    def a_pass(start):
+        k = -(-(n - start) // d)
+        if direction == 'r':
+            return [['read', d, lat()] for _ in range(k + 1)]        # the last read finds the end of the stream
+        return [['write', min(d, n - start - i * d), lat()] for i in range(k)]
+    script += a_pass(0)
+    for _ in range(rng.choice([1, 1, 2, 3])):
+        kind = rng.choice(['rewind', 'rewind', 'middle', 'from_end', 'truncate'])
+        if kind == 'rewind':
+            script += [['seek', 0, 0]] + a_pass(0)
+        elif kind == 'middle':
+            m = rng.randint(0, n)
+            script += [['seek', m, 0]] + a_pass(m)
+        elif kind == 'from_end':
+            m = rng.randint(0, n)
+            script += [['seek', -m, 2]] + a_pass(n - m)
+        else:
+            script += [['seek', 0, 0]] + ([['truncate', 0]] if direction == 'w' else []) + a_pass(0)
+    return {'threads': 1, 'L': L, 'dmax': dmax, 'dir': direction, 'content_len': n if direction == 'r' else 0, 'script': script,
+            'stack': rng.random() < 0.3, 'family': 'positioned-passes', 'calls': [[]]}
+
+
 def run_impl(sc, rng=None):
     """Run a scenario on the real code.  The lock order is sc['order'] when present (replays); otherwise it is chosen
     on the fly and recorded: among the threads with calls left, those whose arrival at the lock (clock + gap +
     latency) is minimal, or not after the instant the lock becomes free, are candidates and rng picks one - every
     such order is an execution real threads can produce.
     Returns per call dict(thread, begin, lat, size, over, gap, lock, time, sleep, debt) and the class constants."""
+    if 'script' in sc:
+        return run_positioned(sc)
     n = sc['threads']
     sim = Sim(n)
     log = []
@@ -218,7 +348,7 @@ def check_bound(sc, calls, consts, rep, kind_override=None):
     n = sc['threads']
     O = max([c['over'] for c in calls] + [Fr(0)])
     burst = L * PL + (dmax if n == 1 else (n + 1) * dmax) + L * O
-    best = max_window_excess([(c['time'], c['size']) for c in calls], L, burst)
+    best = max_window_excess_linear([(c['time'], c['size']) for c in calls], L, burst)
     if best is not None and sc.get('family') != 'multi-slow-io-probe':
         key = 'closest_to_bound_bytes_below[' + ('1 stream' if n == 1 else 'n streams') + ']'
         rep.extra[key] = min(rep.extra.get(key, 10 ** 9), float(-best[0]))
@@ -228,7 +358,8 @@ def check_bound(sc, calls, consts, rep, kind_override=None):
         slow = any(c['lat'] > 0 for c in calls)
         kind = kind_override or ('multi_stream_slow_io' if (n > 1 and slow) else 'window_bound')
         rep.violations.append({
-            'what': (f'{by} bytes passed in a window of {float(T):.6g} s starting at {float(t):.6g} s with limit {sc["L"]} B/s, '
+            'what': ((f'one stream of {sc.get("content_len") or "(written)"} bytes gone over several times (to the end, rewind / seek, again): ' if 'script' in sc else '')
+                     + f'{by} bytes passed in a window of {float(T):.6g} s starting at {float(t):.6g} s with limit {sc["L"]} B/s, '
                      f'{n} stream(s), sizes <= {sc["dmax"]}: allowed L*T + L*PAUSE_LIMIT + {"(n+1)*" if n > 1 else ""}d_max = {float(L * T + burst):.6g}'),
             'signature': {'kind': kind, 'dir': sc['dir']},
             'replay': {k: v for k, v in sc.items() if not k.startswith('_')}})
@@ -539,7 +670,8 @@ RULE = ('scenarios = (limit L, direction, per-thread lists of (caller gap, size,
         '(sizes <= d_max with d_max = L/4, the commands\' chunk size max(L//(16n),1), or random), adversarial all-d_max '
         'bursts, 2-5 streams with zero latency in an rng-chosen legal lock order, the slow-overlapping-I/O probe; plus '
         'transparency cases = random read/write/seek/tell/truncate sequences on BytesIO through the wrapper, bare or under '
-        'TQDMIOReader/TQDMIOWriter; plus command-level cases = the real upload_objects / download_objects / snapshot / restore with a rate '
+        'TQDMIOReader/TQDMIOWriter; one positioned stream gone over several times (pass to the end, rewind / seek to the middle / from '
+        'the end, further passes) with the window bound over all bytes that passed; plus command-level cases = the real upload_objects / download_objects / snapshot / restore with a rate '
         'limit over many files/objects around and below the transfer chunk size against a recording backend under the virtual '
         'clock (non-trivial = at least 20 transfers).  non-trivial = at least one sleep was requested (timing) / a rate-limited op slept '
         '(transparency); distinct = distinct scenario contents')
@@ -549,7 +681,12 @@ def exercise(scs, rep, rng, with_model=True):
     """run scenarios on the implementation, oracle, and (optionally) the model"""
     done = []
     for sc in scs:
-        calls, consts = run_impl(sc, rng)
+        try:
+            calls, consts = run_impl(sc, rng)
+        except Exception as e:     # the code under test raised where a plain stream would not: keep going, report the input
+            rep.disagreements.append({'what': f'the rate-limited wrapper raised {type(e).__name__}: {str(e)[:200]} in a timing scenario '
+                                      f'({sc["family"]})', 'replay': sc_public(sc)})
+            continue
         if sc.get('_short'):
             sh = sc['_short']
             verb = 'read' if sc['dir'] == 'r' else 'write'
@@ -739,11 +876,14 @@ class RecordingBackend:
     stream it is given to upload and for every piece it writes into the stream it is given to download into - the payload
     the COMMAND lets through, whatever wrappers the command did or did not put around the stream."""
 
-    def __init__(self, sim):
+    def __init__(self, sim, extra_passes=0):
         self.sim = sim
         self.objects = {}
         self.events = []          # (virtual time, bytes, direction)
         self.chunk_sizes = set()
+        # after a complete pass the backend rewinds the stream and transfers it again this many times - what the real
+        # backends do when they hash a stream before sending it (S3) or retry after a fault (stream.seek(0) in the except path)
+        self.extra_passes = extra_passes
 
     async def exists(self, name):
         return name in self.objects
@@ -753,13 +893,16 @@ class RecordingBackend:
 
     async def upload_stream(self, name, stream, length, chunk_size=128_000):
         self.chunk_sizes.add(chunk_size)
-        parts = []
-        while True:
-            piece = stream.read(chunk_size)
-            if not piece:
-                break
-            self.events.append((self.sim.clock[0], len(piece), 'up'))
-            parts.append(piece)
+        for attempt in range(1 + self.extra_passes):
+            if attempt:
+                stream.seek(0)
+            parts = []
+            while True:
+                piece = stream.read(chunk_size)
+                if not piece:
+                    break
+                self.events.append((self.sim.clock[0], len(piece), 'up'))
+                parts.append(piece)
         self.objects[name] = b''.join(parts)
 
     async def download(self, name):
@@ -768,10 +911,13 @@ class RecordingBackend:
     async def download_stream(self, name, stream, chunk_size=128_000):
         self.chunk_sizes.add(chunk_size)
         data = self.objects[name]
-        stream.truncate(len(data))
-        for i in range(0, len(data), chunk_size):
-            n = stream.write(data[i:i + chunk_size])
-            self.events.append((self.sim.clock[0], n, 'down'))
+        for attempt in range(1 + self.extra_passes):
+            if attempt:
+                stream.seek(0)
+            stream.truncate(len(data))
+            for i in range(0, len(data), chunk_size):
+                n = stream.write(data[i:i + chunk_size])
+                self.events.append((self.sim.clock[0], n, 'down'))
 
     async def list_files(self, prefix=''):
         for n in sorted(self.objects):
@@ -785,25 +931,96 @@ class RecordingBackend:
         pass
 
 
-def gen_command_case(rng, command=None):
+class RecordingS3:
+    """an S3 service behind httpx.MockTransport for the real S3-compatible adapter: it notes (virtual time, bytes) for every
+    piece of a streamed request body as the transport pulls it - the payload that really leaves for the network"""
+
+    def __init__(self, sim):
+        self.sim = sim
+        self.objects = {}
+        self.events = []
+        self.chunk_sizes = set()
+
+    async def handler(self, request):
+        import httpx
+        path = bytes(request.url.raw_path).partition(b'?')[0]
+        if request.method == 'PUT':
+            streamed = not isinstance(request.stream, httpx.ByteStream)
+            parts = []
+            async for piece in request.stream:
+                if streamed and piece:
+                    self.events.append((self.sim.clock[0], len(piece), 'up'))
+                    self.chunk_sizes.add(len(piece))
+                parts.append(piece)
+            self.objects[path] = b''.join(parts)
+            return httpx.Response(200)
+        if request.method == 'HEAD':
+            return httpx.Response(200 if path in self.objects else 404)
+        if request.method == 'DELETE':
+            self.objects.pop(path, None)
+            return httpx.Response(204)
+        if b'list-type=2' in bytes(request.url.raw_path):
+            return httpx.Response(200, content=b'<ListBucketResult><IsTruncated>false</IsTruncated></ListBucketResult>')
+        if path in self.objects:
+            return httpx.Response(200, content=self.objects[path])
+        return httpx.Response(404)
+
+
+@contextlib.contextmanager
+def s3_adapter(service):
+    """the real S3Compatible adapter, constructed by its own constructor, talking to [service] through a mock transport"""
+    import httpx
+    import replicat.backends.s3c as s3c
+    from harness.c16 import HttpxProxy
+    saved = s3c.httpx
+    class Transport(httpx.AsyncBaseTransport):
+        # not httpx.MockTransport: that one reads the whole request body before the handler runs
+        async def handle_async_request(self, request):
+            response = await service.handler(request)
+            response.request = request
+            return response
+    s3c.httpx = HttpxProxy(Transport())
+    try:
+        yield s3c.S3Compatible('bkt', key_id='AK', access_key='SK', region='us-east-1', host='s3.verif.example', scheme='https')
+    finally:
+        s3c.httpx = saved
+
+
+def gen_command_case(rng, command=None, variant=None):
     """a rate-limited command run: limit, concurrency, and the sizes of the files / objects it transfers - many of them
     no longer than the transfer chunk size the command chooses, some around it, some much longer"""
     L = rng.choice([2048, 4096, 8000, 8192, 20000, 65536])
     n = rng.choice([1, 2, 5])
     chunk = max(L // (n * 16), 1)
-    family = rng.choice(['small', 'small', 'boundary', 'mixed'])
+    family = rng.choice(['small', 'small', 'boundary', 'mixed', 'large'])
+    if variant == 's3-large':
+        variant, family = 's3', 'large'     # whole files worth more than the burst allowance: what one unpaced send pass would let out at once
     # enough payload for about 3 seconds at the limit: the burst allowance is worth 0.5 - 0.65 s
     target = L * rng.choice([2, 3, 4])
+    backend = 'recording'
+    extra_passes = rng.choice([0, 0, 1, 2])
+    cmd = command or rng.choice(['upload_objects', 'download_objects', 'snapshot', 'restore'])
+    if cmd in ('upload_objects', 'snapshot') and rng.random() < 0.35:
+        backend, extra_passes = 's3', 0        # the real S3 adapter makes its own two passes (digest, then send)
+    if variant == 'single':
+        backend, extra_passes = 'recording', 0
+    elif variant == 'again':
+        backend, extra_passes = 'recording', rng.choice([1, 2])
+    elif variant == 's3' and cmd in ('upload_objects', 'snapshot'):
+        backend, extra_passes = 's3', 0
+    target //= 1 + extra_passes
     sizes = []
     while sum(sizes) < target and len(sizes) < 900:
         if family == 'small':
             sizes.append(rng.randint(1, chunk))
+        elif family == 'large':
+            sizes.append(rng.randint(L // 2, 3 * L))
         elif family == 'boundary':
             sizes.append(max(1, chunk + rng.choice([-2, -1, 0, 0, 1, 2])))
         else:
             sizes.append(rng.choice([rng.randint(1, chunk), rng.randint(1, chunk), chunk, rng.randint(chunk + 1, 6 * chunk)]))
-    return {'probe': 'command', 'command': command or rng.choice(['upload_objects', 'download_objects', 'snapshot', 'restore']),
-            'L': L, 'n': n, 'sizes': sizes, 'family': family, 'seed': rng.randrange(2 ** 32)}
+    return {'probe': 'command', 'command': cmd, 'L': L, 'n': n, 'sizes': sizes, 'family': family, 'seed': rng.randrange(2 ** 32),
+            'backend': backend, 'extra_passes': extra_passes}
 
 
 def run_command_case(case):
@@ -813,14 +1030,19 @@ def run_command_case(case):
     from replicat.repository import Repository
     import replicat.utils as U
     sim = Sim(1, exact=False)
-    be = RecordingBackend(sim)
+    stack = contextlib.ExitStack()
+    if case.get('backend') == 's3':
+        be = rec = RecordingS3(sim)
+        adapter = stack.enter_context(s3_adapter(rec))
+    else:
+        be = rec = adapter = RecordingBackend(sim, case.get('extra_passes', 0))
     L, n, sizes, command = case['L'], case['n'], case['sizes'], case['command']
     r = random.Random(case['seed'])
     d = Path(tempfile.mkdtemp(prefix='verif-c20cmd-', dir=os.environ.get('VERIF_SCRATCH', '/var/tmp')))
     cwd = os.getcwd()
 
     async def go():
-        repo = Repository(be, concurrent=n, quiet=True, cache_directory=None)
+        repo = Repository(adapter, concurrent=n, quiet=True, cache_directory=None)
         if command == 'upload_objects':
             paths = []
             for i, sz in enumerate(sizes):
@@ -850,10 +1072,12 @@ def run_command_case(case):
     try:
         (d / 'src').mkdir()
         os.chdir(d)
-        with contextlib.redirect_stdout(io.StringIO()), contextlib.redirect_stderr(io.StringIO()), patched_time(sim):
+        with contextlib.redirect_stdout(io.StringIO()), contextlib.redirect_stderr(io.StringIO()), patched_time(sim), warnings.catch_warnings():
+            warnings.simplefilter('ignore', DeprecationWarning)
             asyncio.run(go())
             pl = Fr(U.RateLimitedIO.PAUSE_LIMIT)
     finally:
+        stack.close()
         os.chdir(cwd)
         shutil.rmtree(d, ignore_errors=True)
     want = 'up' if command in ('upload_objects', 'snapshot') else 'down'
@@ -865,7 +1089,7 @@ def check_command_case(case, rep):
     events, chunks, PL = run_command_case(case)
     L, n = Fr(case['L']), case['n']
     rep.case(('command', case['command'], case['L'], n, case['sizes']), nontrivial=len(events) >= 20)
-    rep.count('command:' + case['command'])
+    rep.count('command:' + case['command'] + (':s3' if case.get('backend') == 's3' else f':passes={1 + case.get("extra_passes", 0)}'))
     rep.count('command transfers', len(events))
     if not events:
         rep.disagreements.append({'what': f'command probe: {case["command"]} transferred nothing through the backend streams', 'replay': case})
@@ -878,23 +1102,28 @@ def check_command_case(case, rep):
     if best[0] > tol:
         ex, t, T, by = best
         small = sum(1 for s_ in case['sizes'] if s_ <= max(case['L'] // (n * 16), 1))
+        how = ('to the real S3-compatible adapter, bytes counted as the HTTP transport pulls the request bodies' if case.get('backend') == 's3'
+               else f'to a backend that transfers every stream {1 + case.get("extra_passes", 0)} time(s), rewinding in between')
         rep.violations.append({
-            'what': (f'{case["command"]} with rate limit {case["L"]} B/s, {n} connection(s), {len(case["sizes"])} files/objects '
+            'what': (f'{case["command"]} ({how}) with rate limit {case["L"]} B/s, {n} connection(s), {len(case["sizes"])} files/objects '
                      f'({small} of them no longer than the transfer chunk of {max(case["L"] // (n * 16), 1)} bytes): the backend saw {by} payload bytes '
                      f'within {float(T):.6g} s of (virtual) time starting at {float(t):.6g} s; allowed L*T + L*PAUSE_LIMIT + (n+1)*d_max = {float(L * T + burst):.6g}'),
-            'signature': {'kind': 'command_window', 'command': case['command']},
+            'signature': {'kind': 'command_window', 'command': case['command'], 'backend': case.get('backend', 'recording')},
             'replay': case})
         return True
     return False
 
 
 def command_probe(rep, rng, rounds):
+    """every command x every way a backend may go over the stream (once; again after a rewind; the real S3 adapter), [rounds] times"""
     for command in ('upload_objects', 'download_objects', 'snapshot', 'restore'):
+        variants = ['single', 'again'] + (['s3', 's3-large'] if command in ('upload_objects', 'snapshot') else [])
         for _ in range(rounds):
-            case = gen_command_case(rng, command)
-            check_command_case(case, rep)
-            if command == 'upload_objects':
-                rep.sample({k: (v if k != 'sizes' else v[:12] + ['...']) for k, v in case.items()})
+            for variant in variants:
+                case = gen_command_case(rng, command, variant)
+                check_command_case(case, rep)
+                if command == 'upload_objects' and variant == 'again':
+                    rep.sample({k: (v if k != 'sizes' else v[:12] + ['...']) for k, v in case.items()})
 
 
 def sc_public(sc):
@@ -909,12 +1138,14 @@ def run(ctx) -> Report:
         scs.append(gen_single(rng, rng.choice([3, 8, 20, 40, ctx.scale(60, 150)])))
     for _ in range(ctx.scale(120, 1200)):
         scs.append(gen_multi(rng, rng.choice([6, 20, 40, ctx.scale(60, 150)])))
+    for _ in range(ctx.scale(40, 400)):
+        scs.append(gen_positioned(rng))
     scs.append(slow_io_probe(rng, False))
     scs.append(slow_io_probe(rng, True))
     exercise(scs, rep, rng)
     site_probe(rep, rng)
     real_threads_probe(rep)
-    command_probe(rep, rng, ctx.scale(2, 12))
+    command_probe(rep, rng, ctx.scale(1, 8))
     for i in range(ctx.scale(1500, 20000)):
         check_transparency(transparency_case(rng, i), rep)
     return rep
@@ -933,10 +1164,12 @@ def search(ctx, broken) -> Report:
         scs.append(gen_single(rng, rng.choice([20, 60, 150, 300])))
     for _ in range(500):
         scs.append(gen_multi(rng, rng.choice([40, 120, 300])))
+    for _ in range(400):
+        scs.append(gen_positioned(rng))
     exercise(scs, rep, rng, with_model=False)
     site_probe(rep, rng)
     real_threads_probe(rep)
-    command_probe(rep, rng, 25)
+    command_probe(rep, rng, 12)
     for i in range(20000):
         if check_transparency(transparency_case(rng, i), rep) and len(rep.violations) > 5:
             break
